@@ -14,7 +14,7 @@
 
 #define MAXS 4
 #define MAXLIT 64
-#define MAXPRINT 64
+#define MAXPRINT 256
 
 static struct cstl_string ns[MAXS];
 static struct cstl_wstring ws[MAXS];
